@@ -35,14 +35,19 @@ const LINKS_SIZE: usize = std::mem::size_of::<Links>();
 /// Maximum node size (with full tower)
 const MAX_NODE_SIZE: usize = std::mem::size_of::<Node>() + (MAX_HEIGHT - 1) * LINKS_SIZE;
 
-/// Arena bytes an entry needs at the very least (a node of height 1 plus its
-/// key and value bytes).
-pub(crate) fn min_entry_size(key_len: usize, value_len: usize) -> usize {
-	std::mem::size_of::<Node>() + key_len + value_len
+/// Arena bytes an entry needs at the very most: a node with a full tower (the
+/// height is drawn at random for every insertion), its key and value bytes,
+/// and the padding that aligns the node.
+pub(crate) fn max_entry_size(key_len: usize, value_len: usize) -> usize {
+	MAX_NODE_SIZE + key_len + value_len + NODE_ALIGN_PAD
 }
 
-/// Arena bytes taken by the head and tail sentinels of every skiplist.
-pub(crate) const SENTINEL_SIZE: usize = 2 * MAX_NODE_SIZE;
+/// Every node allocation is padded by `alignment - 1` bytes (see `Arena::alloc`).
+const NODE_ALIGN_PAD: usize = 7;
+
+/// Arena bytes that are gone before the first entry: offset 0 is reserved, and
+/// every skiplist has a head and a tail sentinel with full towers.
+pub(crate) const SENTINEL_SIZE: usize = 1 + 2 * (MAX_NODE_SIZE + NODE_ALIGN_PAD);
 
 /// Precomputed probabilities for random height generation
 fn probabilities() -> &'static [u32; MAX_HEIGHT] {
